@@ -22,7 +22,8 @@ def run(tier, seed, ck=None):
                   '(Z1,Z2 != 0: divide by Z1Z2; one Z zero: second equation forces the other Z to be 0 because Y != 0; both zero: both sides vanish)']
     ck.assumptions += ['operands are valid representations (the invariant of C10)']
     ck.bounds.update({'operands': 'all coordinate 6-tuples as ring elements', 'aliasing': 'distinct / same element'})
-    kernels.prove(ck, 'field', ['Mul', 'Nonzero'], tier)
+    from props import C12
+    C12.run(tier, seed, ck)   # contracts of the field.Element methods used as summaries are re-proved on the current tree
     for al, r in enumerate(runs):
         tag = 'C05.alias%d' % al
         ok = len(r.paths) == 1 and r.paths[0]['end'] == 'return'
